@@ -352,7 +352,8 @@ Theorem text_reports_name_and_description : forall descr p t d,
 Proof.
   intros descr p t d H E. unfold generate in H. rewrite E in H.
   destruct (gen_panics d); [discriminate|]. inversion H; subst p t. clear H.
-  destruct (gen_text_verbatim d) as [(u & v & H1) (u' & v' & H2)].
+  destruct (gen_text_verbatim (norm_errors d)) as [(u & v & H1) (u' & v' & H2)].
+  cbn [norm_errors i_name i_descr] in H1, H2.
   split; [|split].
   - rewrite H1. apply contains_mid.
   - rewrite H2. apply contains_mid.
